@@ -1,6 +1,7 @@
 package main
 
 import (
+	"sort"
 	"bytes"
 	"context"
 	"fmt"
@@ -45,6 +46,40 @@ func (e *Exec) smtTextW(o *Obligation, withModel bool, weak bool) string {
 	for _, d := range e.decls[:o.NDecl] {
 		b.WriteString(d)
 		b.WriteByte('\n')
+	}
+	// definitional axioms: only those the goal needs (transitively through axiom bodies)
+	if len(e.axioms) > 0 {
+		need := map[string]bool{}
+		var names []string
+		for n := range e.axioms {
+			if e.axiomIdx[n] <= o.NDecl {
+				names = append(names, n)
+			}
+		}
+		sort.Strings(names)
+		work := []string{o.Goal.S}
+		for _, n := range names {
+			if !e.axiomRec[n] {
+				need[n] = true
+				work = append(work, e.axioms[n])
+			}
+		}
+		for len(work) > 0 {
+			txt := work[len(work)-1]
+			work = work[:len(work)-1]
+			for _, n := range names {
+				if !need[n] && strings.Contains(txt, "("+n+" ") {
+					need[n] = true
+					work = append(work, e.axioms[n])
+				}
+			}
+		}
+		for _, n := range names {
+			if need[n] {
+				b.WriteString(e.axioms[n])
+				b.WriteByte('\n')
+			}
+		}
 	}
 	for i, a := range e.assumes[:o.NAssume] {
 		if weak && isQuantified(a.S) {
